@@ -25,6 +25,7 @@ func runC20(c *Ctx) {
 	c20Hidden(c)
 	c20ParseWidth(c)
 	c20Guards(c)
+	c20ListGrammar(c, NewGuardEngine(c.P, c.Depth+2))
 }
 
 type methodSet struct {
